@@ -140,6 +140,12 @@ def check(ctx, src):
               witness="every two-form sequence runs in reverse", detail="self.stmts + other.stmts; other.expr")
 
     check_rtemp(ctx, comp)
+    # rules decided by sibling checks that are part of C01's language (comprehension strategy, shared if-temporary)
+    from . import c04, c12
+    from .. import core
+
+    core.transfer(ctx, src, c04, {"COMP-GUARD", "COMP-TAGS", "COMP-ELSE"})
+    core.transfer(ctx, src, c12, {"R-ID-FRESH"}, key_filter=lambda k: "compile_if" in k)
 
     # --- compile_assign -------------------------------------------------------------------------
     ca = comp.rm.func("compile_assign")
